@@ -24,12 +24,12 @@ theorem strip_paren_depth (t : PTree) (h : t.WF) (d : Nat) :
 /-- **Each recorded once.**  Whatever the statements of the unit are, no two recorded chains
     end in the same name. -/
 theorem recorded_once (lines : List Str) : ((recorded lines).map lastOf).Nodup :=
-  (runUnit_inv _ _ lines).1
+  (runUnit_inv _ _ _ lines).1
 
 /-- **Intrinsics and keywords are never recorded** (over the *generated* INTRINSICS table). -/
 theorem intrinsics_never_recorded (lines : List Str) :
     ∀ c ∈ recorded lines, lastOf c ∉ intr :=
-  (runUnit_inv _ _ lines).2
+  (runUnit_inv _ _ _ lines).2
 
 /-- Keywords that are followed by a parenthesis in executable statements (and therefore look
     like references to `CALL_RE`) are all in the generated INTRINSICS table, so by
@@ -61,30 +61,101 @@ theorem statement_records_iff (asc : Assocs) (line : Str) (calls : List Chain) (
 /-- **Nothing recorded is lost or reordered** by later statements: the list after a statement
     extends the list before it. -/
 theorem recorded_stable (s : St) (raw : Str) :
-    s.calls <+: (step Generated.C08.cascade intr s raw).calls :=
-  step_prefix _ _ s raw
+    s.calls <+: (step Generated.C08.guards Generated.C08.cascade intr s raw).calls :=
+  step_prefix _ _ _ s raw
 
 /-- **FORMAT statements are never scanned**, whatever their items look like: the generated
-    cascade lists FORMAT_RE before the CALL branch. -/
-theorem format_never_scanned (line : Str) (bl : Int) (h : formatRe line = true) :
-    gate Generated.C08.cascade line bl ≠ .scan :=
-  gate_not_scan _ "FORMAT_RE" "" line bl (by decide +kernel) (by simp [branchTakes, h])
+    cascade lists FORMAT_RE before the CALL branch.  (`guardTest guards "FORMAT_RE"` is the
+    boolean `FORMAT_RE.match(line)` of the *generated* parse tree of the regex.) -/
+theorem format_never_scanned (line : Str) (bl : Int)
+    (h : Rx.guardTest Generated.C08.guards "FORMAT_RE" line = true) :
+    gate Generated.C08.guards Generated.C08.cascade line bl ≠ .scan :=
+  gate_not_scan _ _ "FORMAT_RE" "" line bl (by decide +kernel) (by simp [branchTakes, h])
 
 /-- **Computed / arithmetic GOTO statements are never scanned.** -/
-theorem arith_goto_never_scanned (line : Str) (bl : Int) (h : arithGotoRe line = true) :
-    gate Generated.C08.cascade line bl ≠ .scan :=
-  gate_not_scan _ "ARITH_GOTO_RE" "" line bl (by decide +kernel) (by simp [branchTakes, h])
+theorem arith_goto_never_scanned (line : Str) (bl : Int)
+    (h : Rx.guardTest Generated.C08.guards "ARITH_GOTO_RE" line = true) :
+    gate Generated.C08.guards Generated.C08.cascade line bl ≠ .scan :=
+  gate_not_scan _ _ "ARITH_GOTO_RE" "" line bl (by decide +kernel) (by simp [branchTakes, h])
+
+/-- **A FORMAT statement records nothing - by its shape, not by a recogniser.**  Every
+    statement `label blanks FORMAT blanks ( items ) …` (keyword in any case, any items: repeat
+    groups `3(f8.2)`, `f(2)`, masked literals) is matched by the regex *generated from the
+    source* and decided by a branch listed before both the ASSOCIATE and the CALL branch of the
+    generated cascade, so the recorded list after the statement is the list before it.
+    A change of FORMAT_RE (or of the order of the cascade) that lets such a statement through
+    makes this theorem fail. -/
+theorem format_statement_records_nothing (s : St) (raw lab ws1 kw ws2 items rest : Str)
+    (hlab : lab ≠ []) (hd : ∀ c ∈ lab, isDigit c = true)
+    (h1 : ws1 ≠ []) (hw1 : ∀ c ∈ ws1, isSpace c = true)
+    (hkw : lower kw = ['f', 'o', 'r', 'm', 'a', 't'])
+    (h2 : ws2 ≠ []) (hw2 : ∀ c ∈ ws2, isSpace c = true)
+    (hit : ∀ c ∈ items, c ≠ '\n')
+    (hraw : maskQuotes raw = lab ++ (ws1 ++ (kw ++ (ws2 ++ '(' :: (items ++ ')' :: rest))))) :
+    (step Generated.C08.guards Generated.C08.cascade intr s raw).calls = s.calls := by
+  have ht : branchTakes Generated.C08.guards "FORMAT_RE" "" (maskQuotes raw) s.bl = true := by
+    simp [branchTakes, hraw, formatGuard_takes lab ws1 kw ws2 items rest hlab hd h1 hw1 hkw h2 hw2 hit]
+  obtain ⟨n, hn, hg⟩ := gate_of_precedes Generated.C08.guards ["ASSOCIATE_RE", "CALL_RE|SUBCALL_RE"]
+    Generated.C08.cascade "FORMAT_RE" "" (maskQuotes raw) s.bl (by decide +kernel) ht
+  have hq := branchAct_quiet n (maskQuotes raw) s.bl (by simp at hn; exact hn.2) (by simp at hn; exact hn.1)
+  exact step_calls_eq _ _ _ s raw (hg ▸ hq.1) (fun it => hg ▸ hq.2 it)
+
+/-- **A computed GO TO is never scanned wherever it stands in the statement** - at the start,
+    behind a statement label, or as the action statement of a logical IF
+    (`pre` = `10 if (f(x) > 0) `): any text, `go`, blanks (or none), `to`, blanks (or none),
+    `(` label list `)`, any text.  Stated over the regex *and the call-site method* generated
+    from the source: anchoring ARITH_GOTO_RE (or replacing `.search` by `.match`) makes this
+    theorem fail.  Consequently the words `to (10, 20)` are never offered to CALL_RE. -/
+theorem computed_goto_anywhere_never_scanned (pre go ws1 to_ ws2 labels rest : Str) (bl : Int)
+    (hgo : lower go = ['g', 'o']) (hw1 : ∀ c ∈ ws1, isSpace c = true)
+    (hto : lower to_ = ['t', 'o']) (hw2 : ∀ c ∈ ws2, isSpace c = true)
+    (hne : labels ≠ []) (hl : ∀ c ∈ labels, isDigit c = true ∨ c = ',' ∨ isSpace c = true) :
+    gate Generated.C08.guards Generated.C08.cascade
+      (pre ++ (go ++ (ws1 ++ (to_ ++ (ws2 ++ '(' :: (labels ++ ')' :: rest)))))) bl ≠ .scan :=
+  arith_goto_never_scanned _ bl (arithGotoGuard_takes pre go ws1 to_ ws2 labels rest hgo hw1 hto hw2 hne hl)
+
+/-- … and such a statement **records nothing** (the recorded list is unchanged), provided it
+    is not an ASSOCIATE statement (the ASSOCIATE branch precedes the GOTO branch in the
+    cascade and does scan its header; no statement is both). -/
+theorem computed_goto_statement_records_nothing_partial (s : St) (raw pre go ws1 to_ ws2 labels rest : Str)
+    (hgo : lower go = ['g', 'o']) (hw1 : ∀ c ∈ ws1, isSpace c = true)
+    (hto : lower to_ = ['t', 'o']) (hw2 : ∀ c ∈ ws2, isSpace c = true)
+    (hne : labels ≠ []) (hl : ∀ c ∈ labels, isDigit c = true ∨ c = ',' ∨ isSpace c = true)
+    (hraw : maskQuotes raw = pre ++ (go ++ (ws1 ++ (to_ ++ (ws2 ++ '(' :: (labels ++ ')' :: rest))))))
+    (hassoc : associateRe (maskQuotes raw) = none) :
+    (step Generated.C08.guards Generated.C08.cascade intr s raw).calls = s.calls := by
+  refine step_calls_eq _ _ _ s raw ?_ ?_
+  · rw [hraw]
+    exact computed_goto_anywhere_never_scanned pre go ws1 to_ ws2 labels rest s.bl hgo hw1 hto hw2 hne hl
+  · intro items hg
+    have := gate_assoc _ _ _ _ _ hg
+    rw [hassoc] at this
+    exact absurd this (by simp)
+
+/-- Non-vacuity: the logical-IF form and the labelled form, over the generated tables. -/
+example : recordedOf ["if (fa(1) > 0) go to (10, 20), i", "10 GOTO(10,20) fb(2)", "x = fc(3)"] = [["fc"]] := by
+  decide +kernel
+
+/-- `format(` written without a blank: when FORMAT_RE does not match it (the regex of the
+    source demands `\s+` before the parenthesis) the statement is scanned and the repeat count
+    is recorded as a call to `3` (finding C08-format-without-blank-scanned); when it does
+    (candidate repair `\s*`), and always with a blank, nothing is recorded. -/
+theorem format_without_blank_witness :
+    recordedOf ["10 format(3(f8.2, 1x), a)"]
+        = (if Rx.guardTest Generated.C08.guards "FORMAT_RE" "10 format(3(f8.2, 1x), a)".toList then [] else [["3"]])
+      ∧ recordedOf ["10 format (3(f8.2, 1x), a)"] = [] := by
+  decide +kernel
 
 /-- **Declarations are never scanned** — outside BLOCK constructs (`blocklevel == 0`): type
     declaration statements, attribute statements and USE statements are taken by earlier
     branches of the generated cascade. -/
 theorem declarations_never_scanned_partial (line : Str)
     (h : variableRe line = true ∨ attribRe line = true ∨ useRe line = true) :
-    gate Generated.C08.cascade line 0 ≠ .scan := by
+    gate Generated.C08.guards Generated.C08.cascade line 0 ≠ .scan := by
   rcases h with h | h | h
-  · exact gate_not_scan _ "VARIABLE_RE" "blocklevel0" line 0 (by decide +kernel) (by simp [branchTakes, h])
-  · exact gate_not_scan _ "ATTRIB_RE" "blocklevel0" line 0 (by decide +kernel) (by simp [branchTakes, h])
-  · exact gate_not_scan _ "USE_RE" "" line 0 (by decide +kernel) (by simp [branchTakes, h])
+  · exact gate_not_scan _ _ "VARIABLE_RE" "blocklevel0" line 0 (by decide +kernel) (by simp [branchTakes, h])
+  · exact gate_not_scan _ _ "ATTRIB_RE" "blocklevel0" line 0 (by decide +kernel) (by simp [branchTakes, h])
+  · exact gate_not_scan _ _ "USE_RE" "" line 0 (by decide +kernel) (by simp [branchTakes, h])
 
 /-- … inside a BLOCK construct they are: the declared array `k` is recorded
     (finding C08-block-local-array-recorded). -/
